@@ -66,6 +66,9 @@ PROPS = {
     "C12": space_prop(["Props/C12.v"], ["C12"]),
     "C13": space_prop(["Props/C13.v"], ["C13"]),
     "C14": space_prop(["Props/C14.v"], ["C14", "C11"]),
+    "C19": planner_prop(["Props/C19.v", "Spaces/SpDecode.v"], ["C19"], diff_fields={1}, level="translation_validation",
+                        explanation="programs = Python-API scenarios executed on both sides; disagreements_checked = scenarios compared"),
+    "C20": planner_prop(["Props/C20.v"], ["C20", "C19"], diff_fields={1}),
     "C15": planner_prop(["Props/C15.v"], ["C15"]),
     "C16": planner_prop(["Props/C16.v"], ["C16"]),
     "C17": planner_prop(["Props/C17.v"], ["C17"]),
@@ -106,6 +109,18 @@ def stages(pid, tier, seed, replay):
             if tier != "quick":
                 args += ["--gof-n", "200000"]
             st.append({"name": name, "kind": "spaces", "args": args, "header": SP_HEADER, "fn": "check_space_array", "ref": ref})
+    if pid in ("C19", "C20"):
+        n = 6 if tier == "quick" else 40
+        pyf = ",".join(f"py-{v}:{n}" for v in ("rv", "so2", "so3", "se2", "se3", "css"))
+        if pid == "C19":
+            st.append({"name": "python-vs-core:planners", "kind": "planners", "py": "planners",
+                       "args": ["--seed", str(seed), "--families", pyf, "--threads", "8"]})
+            st.append({"name": "python-vs-core:wrappers", "kind": "spaces", "py": "wrappers", "header": SP_HEADER, "fn": "check_space_array",
+                       "args": ["--seed", str(seed), "--families", "ctor,metric", "--count", "300" if tier == "quick" else "3000"]})
+        else:
+            st.append({"name": "python-faults", "kind": "planners", "py": "faults",
+                       "args": ["--seed", str(seed), "--families", pyf, "--threads", "8", "--faults"]})
+        return st
     fams = FAMS_QUICK if tier == "quick" else FAMS_THOROUGH
     if pid in PLANNER_STAGE_FLAGS:
         for name, flags in PLANNER_STAGE_FLAGS[pid]:
